@@ -21,10 +21,10 @@ def _reg(i):
 UNSORTED = [(b"sB", [(b"c1", C1), (b"c2", C3)]), (b"sA", [(b"c1", C2), (b"c2", C3)]), (b"sC", [(b"c1", C1)])]
 P2 = Int(64, 0, 2)
 UNSORTED2 = [(b"sB", [(b"c1", C1)]), (b"sA", [(b"c1", C2)])]
-QUICK = [_reg(Pipeline("det_multi_t1_p1", 1, UNSORTED2, splitters=SPL, preempt=1, driver="multi", view="determinism")).name,
-         _reg(Pipeline("det_api_t2", 2, TWO, splitters=SPL, preempt=1, driver="api", view="determinism")).name,
+QUICK = [_reg(Pipeline("det_multi_t1_p1", 1, UNSORTED2, splitters=SPL, preempt=1, driver="multi", view="determinism", cross=True)).name,
+         _reg(Pipeline("det_api_t2", 2, TWO, splitters=SPL, preempt=1, driver="api", view="determinism", cross=True)).name,
          _reg(Pipeline("det_multi_t2", 2, UNSORTED, splitters=SPL, preempt=0, driver="multi", view="determinism")).name,
-         _reg(Pipeline("det_single_t2", 2, THREE, splitters=SPL, preempt=0, driver="single", view="determinism", pack_size=P2)).name]
+         _reg(Pipeline("det_single_t2", 2, THREE, splitters=SPL, preempt=0, driver="single", view="determinism", pack_size=P2, cross=True)).name]
 THOROUGH = ["det_multi_t1_p1", "det_api_t2", _reg(Pipeline("T_det_api_t3", 3, TWO, splitters=SPL, preempt=0, driver="api", view="determinism")).name,
             _reg(Pipeline("T_det_multi_t2_p1", 2, UNSORTED2, splitters=SPL, preempt=1, driver="multi", view="determinism")).name,
             _reg(Pipeline("T_det_single_t2_p1", 2, THREE, splitters=SPL, preempt=1, driver="single", view="determinism", pack_size=P2)).name,
